@@ -135,9 +135,6 @@ Proof.
   apply andb_true_iff in H. destruct H as [H1 H2]. rewrite (lower_not_upper c H1), (IH H2). reflexivity.
 Qed.
 
-(* a capital followed by small letters only (possibly none) *)
-Definition cap_word (w : str) : bool :=
-  match w with u :: r => is_upper u && forallb is_lower r | [] => false end.
 
 Lemma pascal_part_cap_word : forall w, cap_word w = true -> pascal_part w = w.
 Proof.
@@ -1081,11 +1078,11 @@ Qed.
 (* ---- prefixes ------------------------------------------------------------------------------ *)
 
 Lemma prefix_ok_inv : forall ws, prefix_ok ws = true ->
-  exists pw, ws = pw ++ [[]] /\ forallb lower_word pw = true.
+  exists pw, ws = pw ++ [[]] /\ forallb pword pw = true.
 Proof.
   induction ws as [|w r IH]; [discriminate|]. intros H. destruct r as [|w2 r'].
   - cbn [prefix_ok] in H. destruct w; [|discriminate]. exists []. split; reflexivity.
-  - change (prefix_ok (w :: w2 :: r')) with (lower_word w && prefix_ok (w2 :: r')) in H.
+  - change (prefix_ok (w :: w2 :: r')) with (pword w && prefix_ok (w2 :: r')) in H.
     apply andb_true_iff in H. destruct H as [Hw Hr]. destruct (IH Hr) as [pw [E F]].
     exists (w :: pw). rewrite E. split; [reflexivity|]. cbn [forallb]. rewrite Hw, F. reflexivity.
 Qed.
@@ -1102,7 +1099,7 @@ Proof.
 Qed.
 
 Lemma is_prefix_inv : forall p, is_prefix p = true ->
-  forallb lower_word (prefix_words p) = true /\ no_adjacent_singles (prefix_words p) = true /\
+  forallb pword (prefix_words p) = true /\ no_adjacent_singles (prefix_words p) = true /\
   (p = [] /\ prefix_words p = [] \/
    prefix_words p <> [] /\ p = join_us (prefix_words p) ++ [us]).
 Proof.
@@ -1158,17 +1155,43 @@ Proof. intros [|c r] H; [discriminate|congruence]. Qed.
 
 Lemma words_upper_snake_nonnil s : words s <> []. Proof. apply words_nonnil. Qed.
 
+(* ---- prefix words: small letters, Capitalised or CAPITALS ------------------------------------ *)
+
+Lemma pword_cases : forall w, pword w = true ->
+  lower_word w = true \/ cap_word w = true \/ upper_word w = true.
+Proof.
+  intros w H. unfold pword in H. apply orb_true_iff in H. destruct H as [H|H]; [|tauto].
+  apply orb_true_iff in H. tauto.
+Qed.
+
+Lemma pword_letters : forall w, pword w = true -> letters w = true.
+Proof.
+  intros w H. destruct (pword_cases w H) as [L|[C|U]];
+    [apply lower_word_letters|apply cap_word_letters|apply upper_word_letters]; assumption.
+Qed.
+
+Lemma pword_no_us : forall w, pword w = true -> no_us w = true.
+Proof. intros w H. apply letters_no_us, pword_letters, H. Qed.
+
+Lemma ins3_pword : forall w, pword w = true -> ins3 w = w.
+Proof.
+  intros w H. destruct (pword_cases w H) as [L|[C|U]].
+  - unfold lower_word in L. apply andb_true_iff in L. apply ins3_no_upper, all_lower_no_upper. tauto.
+  - destruct (cap_word_inv w C) as [u [ls [E [_ Hl]]]]. subst w.
+    apply ins3_tail_no_upper, all_lower_no_upper, Hl.
+  - unfold upper_word in U. apply andb_true_iff in U. apply ins3_all_upper. tauto.
+Qed.
+
 (* the list of word lists behind a token list: prefix words and member words stand for
    themselves, a Pascal name for its humps *)
 Lemma map_ins3_tokens : forall pw encl mw,
-  forallb lower_word pw = true -> forallb is_pascal encl = true -> forallb upper_word mw = true ->
+  forallb pword pw = true -> forallb is_pascal encl = true -> forallb upper_word mw = true ->
   map ins3 (pw ++ encl ++ mw) =
   map join_us (map (fun w => [w]) pw ++ map humps encl ++ map (fun w => [w]) mw).
 Proof.
   intros pw encl mw H1 H2 H3. rewrite !map_app, !map_map. f_equal; [|f_equal].
   - eapply map_ext_forallb; [|exact H1]. intros w Hw. cbn [join_us join_with].
-    unfold lower_word in Hw. apply andb_true_iff in Hw. destruct Hw as [_ Hw].
-    apply ins3_no_upper, all_lower_no_upper, Hw.
+    apply ins3_pword, Hw.
   - eapply map_ext_forallb; [|exact H2]. intros w Hw. apply ins3_pascal, Hw.
   - eapply map_ext_forallb; [|exact H3]. intros w Hw. cbn [join_us join_with].
     unfold upper_word in Hw. apply andb_true_iff in Hw. apply ins3_all_upper. tauto.
@@ -1178,11 +1201,11 @@ Lemma concat_singletons : forall {A} (l : list A), List.concat (map (fun w => [w
 Proof. induction l as [|a r IH]; [reflexivity|]. cbn [map List.concat app]. rewrite IH. reflexivity. Qed.
 
 Lemma tokens_letters : forall pw encl mw,
-  forallb lower_word pw = true -> forallb is_pascal encl = true -> forallb upper_word mw = true ->
+  forallb pword pw = true -> forallb is_pascal encl = true -> forallb upper_word mw = true ->
   forallb letters (pw ++ encl ++ mw) = true.
 Proof.
   intros pw encl mw H1 H2 H3. rewrite !forallb_app.
-  rewrite (forallb_impl _ _ _ lower_word_letters H1), (forallb_impl _ _ _ pascal_letters H2),
+  rewrite (forallb_impl _ _ _ pword_letters H1), (forallb_impl _ _ _ pascal_letters H2),
     (forallb_impl _ _ _ upper_word_letters H3). reflexivity.
 Qed.
 
@@ -1288,6 +1311,74 @@ Proof.
   destruct (humps x); [congruence|discriminate].
 Qed.
 
+Lemma all_upper_isupper : forall r, nonempty r = true -> forallb is_upper r = true -> py_isupper r = true.
+Proof.
+  intros [|c r] Hn H; [discriminate|]. cbn [forallb] in H. apply andb_true_iff in H. destruct H as [Hc Hr].
+  unfold py_isupper. cbn [existsb]. rewrite Hc. cbn [orb andb].
+  apply negb_true_iff. cbn [existsb]. rewrite (upper_not_lower c Hc). cbn [orb].
+  clear Hc Hn c. induction r as [|d r IH]; [reflexivity|]. cbn [forallb existsb] in *.
+  apply andb_true_iff in Hr. destruct Hr as [Hd Hr]. rewrite (upper_not_lower d Hd). cbn [orb]. apply IH, Hr.
+Qed.
+
+Lemma pascal_part_pword : forall w, pword w = true -> pascal_part w = capw w.
+Proof.
+  intros w H. destruct (pword_cases w H) as [L|[C|U]].
+  - unfold lower_word in L. apply andb_true_iff in L. destruct L as [Hn Hl].
+    rewrite (pascal_part_lower_word w Hl). destruct w as [|c r]; [reflexivity|]. cbn [cap capw].
+    cbn [forallb] in Hl |- *. apply andb_true_iff in Hl. destruct Hl as [Hc _].
+    rewrite (lower_not_upper c Hc). cbn [andb]. rewrite andb_false_r. reflexivity.
+  - rewrite (pascal_part_cap_word w C). destruct (cap_word_inv w C) as [u [ls [E [Hu Hl]]]]. subst w.
+    cbn [capw]. destruct ls as [|l ls']; [cbn [nonempty andb]; rewrite (to_upper_id u (upper_not_lower u Hu)); reflexivity|].
+    cbn [forallb] in Hl |- *. apply andb_true_iff in Hl. destruct Hl as [Hl _].
+    rewrite (lower_not_upper l Hl), andb_false_r, andb_false_r.
+    rewrite (to_upper_id u (upper_not_lower u Hu)). reflexivity.
+  - unfold upper_word in U. apply andb_true_iff in U. destruct U as [Hn Hu].
+    destruct w as [|c r]; [discriminate|]. cbn [pascal_part capw]. rewrite Hu, andb_true_r.
+    cbn [forallb] in Hu. apply andb_true_iff in Hu. destruct Hu as [Hc Hr].
+    destruct r as [|d r']; [cbn [nonempty andb]; reflexivity|].
+    rewrite (all_upper_isupper (d :: r') eq_refl Hr). cbn [nonempty andb].
+    rewrite (to_upper_id c (upper_not_lower c Hc)). reflexivity.
+Qed.
+
+Lemma lower_all_upper_is_lower : forall r, forallb is_upper r = true -> forallb is_lower (lower r) = true.
+Proof.
+  induction r as [|c r IH]; [reflexivity|]. cbn [forallb lower map]. intros H. apply andb_true_iff in H.
+  destruct H as [Hc Hr]. rewrite (to_lower_upper_is_lower c Hc). apply IH, Hr.
+Qed.
+
+Lemma capw_is_cap_word : forall w, pword w = true -> cap_word (capw w) = true.
+Proof.
+  intros w H. rewrite <- (pascal_part_pword w H). destruct (pword_cases w H) as [L|[C|U]].
+  - unfold lower_word in L. pose proof L as L'. apply andb_true_iff in L'. destruct L' as [_ Hl].
+    rewrite (pascal_part_lower_word w Hl). apply cap_lower_word_is_cap_word, L.
+  - rewrite (pascal_part_cap_word w C). exact C.
+  - rewrite (pascal_part_pword w H). unfold upper_word in U. apply andb_true_iff in U. destruct U as [Hn Hu].
+    destruct w as [|c r]; [discriminate|]. cbn [capw]. rewrite Hu, andb_true_r.
+    cbn [forallb] in Hu. apply andb_true_iff in Hu. destruct Hu as [Hc Hr].
+    destruct r as [|d r']; [cbn [nonempty cap_word forallb]; rewrite (to_upper_id c (upper_not_lower c Hc)), Hc; reflexivity|].
+    cbn [nonempty cap_word]. rewrite Hc. apply lower_all_upper_is_lower, Hr.
+Qed.
+
+Lemma single_capw : forall w, single (capw w) = single w.
+Proof.
+  intros [|c [|d r]]; try reflexivity. cbn [capw]. destruct (nonempty (d :: r) && forallb is_upper (c :: d :: r)); reflexivity.
+Qed.
+
+Lemma nas_map_capw : forall ws, no_adjacent_singles (map capw ws) = no_adjacent_singles ws.
+Proof.
+  induction ws as [|a r IH]; [reflexivity|]. destruct r as [|b r']; [reflexivity|].
+  cbn [map] in *. rewrite !nas_cons2, IH, !single_capw. reflexivity.
+Qed.
+
+Lemma upper_capw : forall w, upper (capw w) = upper w.
+Proof.
+  intros [|c r]; [reflexivity|]. cbn [capw]. destruct (nonempty r && forallb is_upper (c :: r)) eqn:E.
+  - apply andb_true_iff in E. destruct E as [_ E]. cbn [forallb] in E. apply andb_true_iff in E.
+    destruct E as [Hc _]. change (upper (c :: lower r)) with (to_upper c :: upper (lower r)).
+    rewrite upper_lower. reflexivity.
+  - cbn [upper map]. f_equal. apply ascii_eqb_eq, upper_upper_char.
+Qed.
+
 Lemma lower_word_no_us' : forall w, lower_word w = true -> no_us w = true.
 Proof. intros w H. unfold lower_word in H. apply andb_true_iff in H. apply lower_word_no_us. tauto. Qed.
 
@@ -1295,7 +1386,7 @@ Proof. intros w H. unfold lower_word in H. apply andb_true_iff in H. apply lower
 Lemma message_name_capwords : forall l p encl n,
   pascal_kind l KMessage = true -> is_prefix p = true -> forallb is_pascal (encl ++ [n]) = true ->
   def_name l KMessage p encl n =
-  List.concat (map cap (prefix_words (name_prefix l p)) ++ flat_map humps (encl ++ [n])).
+  List.concat (map capw (prefix_words (name_prefix l p)) ++ flat_map humps (encl ++ [n])).
 Proof.
   intros l p encl n Hk Hp HX. rewrite def_name_pascal_kind by exact Hk.
   set (P := name_prefix l p).
@@ -1303,11 +1394,10 @@ Proof.
   destruct (is_prefix_inv P HP) as [Hpw [_ _]].
   rewrite prefix_join by (exact HP || (destruct encl; discriminate)).
   rewrite pascal_case_join.
-  2:{ rewrite forallb_app. rewrite (forallb_impl _ _ _ lower_word_no_us' Hpw).
+  2:{ rewrite forallb_app. rewrite (forallb_impl _ _ _ pword_no_us Hpw).
       rewrite (forallb_impl _ _ _ pascal_no_us HX). reflexivity. }
   rewrite map_app, !concat_app, concat_flat_humps. f_equal.
-  - f_equal. eapply map_ext_forallb; [|exact Hpw]. intros w Hw. apply pascal_part_lower_word.
-    unfold lower_word in Hw. apply andb_true_iff in Hw. tauto.
+  - f_equal. eapply map_ext_forallb; [|exact Hpw]. intros w Hw. apply pascal_part_pword, Hw.
   - f_equal. eapply map_id_forallb; [|exact HX]. apply pascal_part_pascal.
 Qed.
 
@@ -1325,25 +1415,25 @@ Proof.
   set (pw := prefix_words P) in *. set (Y := flat_map humps (encl ++ [n])).
   assert (HY : forallb is_hump Y = true) by (apply flat_humps_are_humps, HX).
   assert (NY : Y <> []) by (apply flat_humps_nonnil; [destruct encl; discriminate|exact HX]).
-  set (C := map cap pw ++ Y).
+  set (C := map capw pw ++ Y).
   assert (SC : size_const l (List.concat C) = Str size_const_prefix ++ upper (snake_case (List.concat C)))
     by (destruct l; [reflexivity|reflexivity|discriminate]).
   rewrite SC. f_equal.
   assert (CW : forallb cap_word C = true).
   { unfold C. rewrite forallb_app, forallb_map.
-    rewrite (forallb_impl _ _ _ cap_lower_word_is_cap_word Hpw).
+    rewrite (forallb_impl _ _ _ capw_is_cap_word Hpw).
     rewrite (forallb_impl _ _ _ hump_cap_word HY). reflexivity. }
-  assert (NC : C <> []) by (unfold C; destruct (map cap pw), Y; try discriminate; congruence).
+  assert (NC : C <> []) by (unfold C; destruct (map capw pw), Y; try discriminate; congruence).
   change (List.concat C) with (join_us [List.concat C]) at 1.
   rewrite snake_case_letters;
     [|congruence|cbn [forallb]; rewrite andb_true_r; apply concat_letters;
                  [exact NC|eapply forallb_impl; [|exact CW]; apply cap_word_letters]].
   cbn [map join_us join_with].
   rewrite ins3_capwords; [|exact NC|exact CW|].
-  2:{ unfold C. apply nas_app_nosingle; [rewrite nas_map_cap; exact Hnas|].
+  2:{ unfold C. apply nas_app_nosingle; [rewrite nas_map_capw; exact Hnas|].
       eapply forallb_impl; [|exact HY]. apply hump_not_single. }
   rewrite upper_lower, upper_join. unfold C. rewrite map_app, map_map.
-  rewrite (map_ext _ upper upper_cap pw).
+  rewrite (map_ext _ upper upper_capw pw).
   rewrite <- map_app, <- upper_join. subst pw.
   rewrite <- (prefix_join P Y HP NY), upper_app, upper_join. reflexivity.
 Qed.
@@ -1684,4 +1774,27 @@ Theorem cross_proto_reference : forall l k p encl n alias,
   (supports_import LC, supports_import LGo, supports_import LPy) = (false, true, true).
 Proof.
   intros l k p encl n alias. unfold ref_name. repeat split; destruct l; reflexivity.
+Qed.
+
+(* ---- the name an imported proto is referred to by ------------------------------------------- *)
+
+Lemma name_by_member_key : forall members k id,
+  In (k, id) members -> NoDup (map snd members) -> name_by_member members id = Some k.
+Proof.
+  induction members as [|[k' i'] r IH]; intros k id Hin Hnd; [destruct Hin|].
+  cbn [name_by_member]. cbn [map snd] in Hnd. inversion Hnd as [|x l Hni Hnd']; subst.
+  destruct (i' =? id)%N eqn:E.
+  - apply N.eqb_eq in E. subst i'. destruct Hin as [Hin|Hin]; [congruence|].
+    exfalso. apply Hni. change id with (snd (k, id)). apply in_map, Hin.
+  - destruct Hin as [Hin|Hin]; [inversion Hin; subst; rewrite N.eqb_refl in E; discriminate|].
+    apply IH; assumption.
+Qed.
+
+(* a member object registered under key k is referred to as k — whatever its own name is, and
+   whatever other keys the scope has (one of them may well BE that own name) *)
+Theorem definition_name_is_key : forall members k id own,
+  In (k, id) members -> NoDup (map snd members) -> definition_name members id own = k.
+Proof.
+  intros members k id own Hin Hnd. unfold definition_name.
+  rewrite (name_by_member_key members k id Hin Hnd). reflexivity.
 Qed.
